@@ -132,6 +132,13 @@ def make_case(rnd, big=False):
         sf = stil.parse(text)
         if len(sf.patterns) != npat:
             raise ValueError('parsed %d patterns, the file describes %d' % (len(sf.patterns), npat))
+        if rnd.random() < 0.35 and len(c.io_nodes) >= 2:
+            # history: the same StilFile object was already used, then the circuit's port order was changed in place
+            sf.tests(c), sf.responses(c)
+            a, b = rnd.sample(range(len(c.io_nodes)), 2)
+            c.io_nodes[a], c.io_nodes[b] = c.io_nodes[b], c.io_nodes[a]
+            rec['iface'] = [n.name for n in c.s_nodes]
+            rec['st'] = lsim.struct(c)
         rec['tests'] = np.asarray(sf.tests(c)).astype(int).tolist()
         rec['resp'] = np.asarray(sf.responses(c)).astype(int).tolist()
         rec['loc'] = np.asarray(sf.tests_loc(c)).astype(int).tolist() if full else [[0] * npat for _ in iface]
